@@ -4,6 +4,9 @@
 (* real model under the harness clock (now), the reading before and after *)
 (* read through GetMeterReading.  "New" = construction: pre = the initial *)
 (* reading handed over (NoReading when none), post = the first reading.   *)
+(* conc = the RecordReading was held by the stepped harness clock right   *)
+(* after taking its instant (= now) while another call (inner, logged as  *)
+(* its own line) was committed; pre = the reading when it was released.   *)
 (***************************************************************************)
 EXTENDS Meter, TLC, Json
 
@@ -20,15 +23,22 @@ Fails(t) ==
          \cup If(~t.pre.start.has \/ t.post.start = want.start, "initial-start-time-used")
          \cup If(~t.pre.end.has \/ t.post.end = want.end, "initial-end-time-used")
          \cup If(~(t.post.start.has /\ t.post.end.has) \/ t.post.start.v <= t.post.end.v, "start-not-after-end")
+  ELSE IF t.op = "Record" /\ t.conc /\ t.inner # "None" THEN
+         \* held by the stepped clock at its instant t.now while t.inner was committed; t.pre = the reading after that
+         If(ConcurrentRecordOk(t.pre, t.now, t.v, t.err, t.post),
+            IF t.err # "OK" THEN "refused-reading-changed-state"
+            ELSE IF ~Ordered(t.post) THEN "overtaken-reading-start-after-end" ELSE "overtaken-reading-committed-inconsistently")
+         \cup If(t.err # "OK" \/ t.ret = t.post, "response-is-stored-value")
   ELSE IF t.op = "Record" THEN
          LET want == Record(t.pre, t.now, t.v) IN
          If(t.err = "OK", "err")
+         \cup If(Ordered(t.post), "start-not-after-end")
          \cup If(t.post.usage = want.usage, "usage-recorded")
          \cup If(t.post.end = want.end, "end-time-moves-to-now")
          \cup If(t.post.start = want.start, "start-time-kept")
          \cup If(t.err # "OK" \/ t.ret = t.post, "response-is-stored-value")
   ELSE LET want == Reset(t.pre, t.now) IN
-       If(t.err = "OK", "err") \cup If(t.post = want, "reset-sets-both-times")
+       If(t.err = "OK", "err") \cup If(t.post = want, "reset-sets-both-times") \cup If(Ordered(t.post), "start-not-after-end")
        \cup If(t.err # "OK" \/ t.ret = t.post, "response-is-stored-value")
 
 BadLines == { k \in 1..Len(Obs) : Fails(Obs[k]) # {} }
